@@ -1,0 +1,56 @@
+//go:build verif
+
+package internal
+
+// Contracts for internal/errors.go (C18): conversions between the test-case form of an
+// error (conformancev1.Error) and the Connect form (*connect.Error) keep the code, the
+// message and every detail. The Connect side is described by the ghost algebra
+// ceCode/ceMsg/ceDetails/cdAny assumed for connect-go in /verif/contracts/extern/deps.vc.
+
+//@ elemvalues []*anypb.Any: v != nil
+
+//@ func ConvertConnectToProtoError
+//@   requires err != nil ==> wfConnectErr(err)
+//@   modifies nothing
+//@   ensures @nil (err == nil) == (result == nil)
+//@   ensures @code err != nil && ceCode[err] <= 2147483647 ==> result.Code == ceCode[err]
+//@   ensures @message err != nil ==> result.Message != nil && *result.Message == ceMsg[err]
+//@   ensures @details err != nil ==> len(result.Details) == len(ceDetails[err]) && (forall i int :: 0 <= i && i < len(result.Details) ==>
+//@        result.Details[i] != nil &&
+//@        result.Details[i].TypeUrl == "type.googleapis.com/" + urlTypeName(cdAny[ceDetails[err][i]].TypeUrl) &&
+//@        bytes(result.Details[i].Value) == old(bytes(cdAny[ceDetails[err][i]].Value)))
+//@   loop 0: invariant len(details) == rangeindex + 1 && (slicebase(details) == 0 || fresh(details))
+//@           invariant forall i int :: 0 <= i && i <= rangeindex ==> details[i] != nil && fresh(details[i]) && allocated(details[i])
+//@           invariant forall i int :: 0 <= i && i <= rangeindex ==> details[i].TypeUrl == "type.googleapis.com/" + urlTypeName(cdAny[ceDetails[err][i]].TypeUrl)
+//@           invariant forall i int :: 0 <= i && i <= rangeindex ==> (len(details[i].Value) == 0 || fresh(details[i].Value)) && allocated(details[i].Value)
+//@           invariant forall i int :: 0 <= i && i <= rangeindex ==> bytes(details[i].Value) == atpre(bytes(cdAny[ceDetails[err][i]].Value))
+
+//@ func ConvertProtoToConnectError
+//@   modifies ceCode, ceMsg, ceDetails, cdAny, []*connect.ErrorDetail
+//@   ensures @nil (err == nil) == (result == nil)
+//@   ensures @code err != nil && err.Code >= 0 ==> ceCode[result] == err.Code
+//@   ensures @message err != nil ==> ceMsg[result] == (err.Message == nil ? "" : *err.Message)
+//@   ensures @details err != nil ==> len(ceDetails[result]) == len(err.Details) && (forall i int :: 0 <= i && i < len(err.Details) ==>
+//@        ceDetails[result][i] != nil && cdAny[ceDetails[result][i]] == err.Details[i])
+//@   loop 0: invariant connectErr != nil && fresh(connectErr) && len(ceDetails[connectErr]) == rangeindex + 1
+//@           invariant err.Code >= 0 ==> ceCode[connectErr] == err.Code
+//@           invariant ceMsg[connectErr] == (err.Message == nil ? "" : *err.Message)
+//@           invariant forall i int :: 0 <= i && i <= rangeindex ==> ceDetails[connectErr][i] != nil && fresh(ceDetails[connectErr][i]) && allocated(ceDetails[connectErr][i]) && cdAny[ceDetails[connectErr][i]] == err.Details[i]
+
+// Any error: a Connect error anywhere in the chain converts as above; anything else
+// becomes code UNKNOWN (2) carrying the error's text.
+//@ func ConvertErrorToProtoError
+//@   requires errorsAs(err, *connect.Error) && errorsAsVal(err, *connect.Error) != nil ==> wfConnectErr(errorsAsVal(err, *connect.Error))
+//@   modifies nothing
+//@   ensures @nil err == nil ==> result == nil
+//@   ensures @other err != nil && !errorsAs(err, *connect.Error) ==> result != nil && result.Code == 2 && result.Message != nil && *result.Message == errText(err) && len(result.Details) == 0
+//@   ensures @connect errorsAs(err, *connect.Error) && errorsAsVal(err, *connect.Error) != nil ==> result != nil &&
+//@        (ceCode[errorsAsVal(err, *connect.Error)] <= 2147483647 ==> result.Code == ceCode[errorsAsVal(err, *connect.Error)]) &&
+//@        result.Message != nil && *result.Message == ceMsg[errorsAsVal(err, *connect.Error)] &&
+//@        len(result.Details) == len(ceDetails[errorsAsVal(err, *connect.Error)])
+
+//@ func ConvertErrorToConnectError
+//@   modifies ceCode, ceMsg, ceDetails
+//@   ensures @nil err == nil ==> result == nil
+//@   ensures @connect errorsAs(err, *connect.Error) ==> result == errorsAsVal(err, *connect.Error)
+//@   ensures @other err != nil && !errorsAs(err, *connect.Error) ==> result != nil && fresh(result) && ceCode[result] == 2 && ceMsg[result] == errText(err) && len(ceDetails[result]) == 0
